@@ -1201,4 +1201,140 @@ example : V3.dot (Src.planeResult (K := ℚ) (fun v => if v = ⟨3, 4, 0⟩ then
 example : Src.planeNormalUnnorm (K := ℚ) (scaleM (1 / 1000) ⟨⟨2, 0, 0⟩, ⟨1, 3, 0⟩, ⟨1, 1, 4⟩⟩) 2 (-3) 4
     = .ok (V3.smul ((1 / 1000) * (1 / 1000)) ⟨144, -192, 156⟩) := by decide +kernel
 example : (2 : ℚ) * (1 / 100000000) + 210 * (1 / 100000) < 30 := by norm_num
+
+/-! ## `np.unique(axis=0)` as modelled: strictly increasing lexicographic order (sorted, nothing twice) -/
+
+theorem lexLt_irrefl : ∀ a : List ℤ, lexLt a a = false
+  | [] => rfl
+  | x :: xs => by simp [lexLt, lexLt_irrefl xs]
+
+theorem lexLt_cons (x y : ℤ) (xs ys : List ℤ) :
+    lexLt (x :: xs) (y :: ys) = true ↔ x < y ∨ (x = y ∧ lexLt xs ys = true) := by
+  simp only [lexLt]
+  split_ifs with h1 h2
+  · simp [h1]
+  · constructor
+    · intro h; cases h
+    · rintro (h | ⟨h, _⟩) <;> omega
+  · have : x = y := by omega
+    simp [this]
+
+theorem lexLt_trans : ∀ a b c : List ℤ, lexLt a b = true → lexLt b c = true → lexLt a c = true
+  | [], [], _, h, _ => by simp [lexLt] at h
+  | [], _ :: _, [], _, h => by simp [lexLt] at h
+  | [], _ :: _, _ :: _, _, _ => by simp [lexLt]
+  | _ :: _, [], _, h, _ => by simp [lexLt] at h
+  | _ :: _, _ :: _, [], _, h => by simp [lexLt] at h
+  | x :: xs, y :: ys, z :: zs, h1, h2 => by
+    rw [lexLt_cons] at h1 h2 ⊢
+    rcases h1 with h1 | ⟨e1, h1⟩ <;> rcases h2 with h2 | ⟨e2, h2⟩
+    · left; omega
+    · left; omega
+    · left; omega
+    · right; exact ⟨by omega, lexLt_trans xs ys zs h1 h2⟩
+
+theorem lexLt_total : ∀ a b : List ℤ, lexLt a b = false → a ≠ b → lexLt b a = true
+  | [], [], _, h => absurd rfl h
+  | [], _ :: _, h, _ => by simp [lexLt] at h
+  | _ :: _, [], _, _ => by simp [lexLt]
+  | x :: xs, y :: ys, h, hne => by
+    rw [lexLt_cons]
+    have h' : ¬ (x < y ∨ (x = y ∧ lexLt xs ys = true)) := by rw [← lexLt_cons]; simp [h]
+    simp only [not_or, not_and] at h'
+    by_cases hxy : x = y
+    · right
+      refine ⟨hxy.symm, lexLt_total xs ys ?_ ?_⟩
+      · have := h'.2 hxy; simpa using this
+      · intro e; exact hne (by rw [hxy, e])
+    · left; have := h'.1; omega
+
+/-- every element of `insertUniq x l` is `x` or an element of `l` (restated for the order proofs). -/
+theorem insertUniq_sorted (x : List ℤ) : ∀ l : List (List ℤ), l.Pairwise (fun a b => lexLt a b = true) →
+    (insertUniq x l).Pairwise (fun a b => lexLt a b = true)
+  | [], _ => by simp [insertUniq]
+  | y :: ys, h => by
+    rw [List.pairwise_cons] at h
+    simp only [insertUniq]
+    split_ifs with h1 h2
+    · rw [List.pairwise_cons]
+      refine ⟨?_, List.pairwise_cons.mpr h⟩
+      intro a ha
+      rcases List.mem_cons.mp ha with rfl | ha
+      · exact h1
+      · exact lexLt_trans _ _ _ h1 (h.1 a ha)
+    · exact List.pairwise_cons.mpr h
+    · rw [List.pairwise_cons]
+      refine ⟨?_, insertUniq_sorted x ys h.2⟩
+      intro a ha
+      rcases (mem_insertUniq x a ys).mp ha with rfl | ha
+      · exact lexLt_total _ _ (by simpa using h1) h2
+      · exact h.1 a ha
+
+/-- `np.unique(axis=0)` as modelled returns its rows in STRICTLY increasing lexicographic order: sorted, and nothing twice. -/
+theorem sortUniq_sorted (l : List (List ℤ)) : (sortUniq l).Pairwise (fun a b => lexLt a b = true) := by
+  unfold sortUniq
+  suffices h : ∀ (l acc : List (List ℤ)), acc.Pairwise (fun a b => lexLt a b = true) →
+      (l.foldl (fun acc x => insertUniq x acc) acc).Pairwise (fun a b => lexLt a b = true) from h l [] List.Pairwise.nil
+  intro l
+  induction l with
+  | nil => intro acc h; exact h
+  | cons x xs ih => intro acc h; exact ih _ (insertUniq_sorted x acc h)
+
+theorem sortUniq_nodup (l : List (List ℤ)) : (sortUniq l).Nodup := by
+  have := sortUniq_sorted l
+  refine this.imp ?_
+  intro a b hab e
+  rw [e, lexLt_irrefl] at hab
+  cases hab
+
+/-- `all_indices(m, reduce=True)`: the rows come in strictly increasing lexicographic order, each direction once. -/
+theorem allIndices_reduce_sorted (m : ℤ) :
+    (allIndices m true).Pairwise (fun a b => lexLt a b = true) ∧ (allIndices m true).Nodup := by
+  simp only [allIndices, if_true]
+  exact ⟨sortUniq_sorted _, sortUniq_nodup _⟩
+
+example : allIndices 1 true = [[-1, -1, -1], [-1, -1, 0], [-1, -1, 1], [-1, 0, -1], [-1, 0, 0], [-1, 0, 1], [-1, 1, -1], [-1, 1, 0],
+    [-1, 1, 1], [0, -1, -1], [0, -1, 0], [0, -1, 1], [0, 0, -1], [0, 0, 1], [0, 1, -1], [0, 1, 0], [0, 1, 1], [1, -1, -1], [1, -1, 0],
+    [1, -1, 1], [1, 0, -1], [1, 0, 0], [1, 0, 1], [1, 1, -1], [1, 1, 0], [1, 1, 1]] := by decide
+
+
+/-! ## the family clause and the length unit -/
+section famscale
+variable {K : Type} [Field K] [LinearOrder K] [IsStrictOrderedRing K]
+
+/-- with NO absolute part the closeness test of two lengths does not see the unit they are written in. -/
+theorem isclose_scale_atol0 (rtol t x y : K) (ht : 0 < t) :
+    isclose rtol 0 (t * x) (t * y) = isclose rtol 0 x y := by
+  have e : ∀ a b : K, (isclose rtol 0 a b = true ↔ |a - b| ≤ 0 + rtol * |b|) := fun a b => isclose_iff rtol 0 a b
+  have h1 : |t * x - t * y| = t * |x - y| := by rw [← mul_sub, abs_mul, abs_of_pos ht]
+  have h2 : |t * y| = t * |y| := by rw [abs_mul, abs_of_pos ht]
+  have : (isclose rtol 0 (t * x) (t * y) = true) ↔ (isclose rtol 0 x y = true) := by
+    rw [e, e, h1, h2, zero_add, zero_add]
+    constructor
+    · intro h; have : t * |x - y| ≤ t * (rtol * |y|) := by linarith [h, mul_left_comm rtol t |y|]
+      exact le_of_mul_le_mul_left this ht
+    · intro h; have := mul_le_mul_of_nonneg_left h ht.le; linarith [this, mul_left_comm rtol t |y|]
+  cases h : isclose rtol 0 x y
+  · cases h' : isclose rtol 0 (t * x) (t * y)
+    · rfl
+    · rw [this.mp h'] at h; cases h
+  · exact this.mpr h
+
+/-- SCALES, family clause: asked with `atol = 0` (any `rtol`), `identifyfamily` and all seven predicates of the cell written in
+    another length unit (`a, b, c` times `t > 0`, angles as they are) answer as for the cell.  With the default `atol = 1e-8` this
+    fails for small-number units (candidate `family:absolute-atol-small-units`): see the examples below. -/
+theorem identify_scale_atol0 (rtol t : K) (ht : 0 < t) (p : CellParams K) :
+    identifyFamily rtol 0 ⟨t * p.a, t * p.b, t * p.c, p.alpha, p.beta, p.gamma⟩ = identifyFamily rtol 0 p := by
+  have hs : ∀ x y : K, isclose rtol 0 (t * x) (t * y) = isclose rtol 0 x y := fun x y => isclose_scale_atol0 rtol t x y ht
+  unfold identifyFamily isCubic isHexagonal isTetragonal isRhombohedral isOrthorhombic isMonoclinic isTriclinic
+  rw [hs p.a p.b, hs p.a p.c]
+
+/-- the candidate, exactly: an orthorhombic cell 3 x 4 x 5 is orthorhombic at the default tolerances, the same cell written in
+    metres (lengths times 1e-10) is called cubic; with `atol = 0` it is orthorhombic in both units. -/
+example : identifyFamily (1 / 100000 : ℚ) (1 / 100000000) ⟨3, 4, 5, 90, 90, 90⟩ = some .orthorhombic := by decide +kernel
+example : identifyFamily (1 / 100000 : ℚ) (1 / 100000000) ⟨3 / 10000000000, 4 / 10000000000, 5 / 10000000000, 90, 90, 90⟩
+    = some .cubic := by decide +kernel
+example : identifyFamily (1 / 100000 : ℚ) 0 ⟨3 / 10000000000, 4 / 10000000000, 5 / 10000000000, 90, 90, 90⟩
+    = some .orthorhombic := by decide +kernel
+end famscale
 end Atomman.C16
